@@ -65,6 +65,7 @@ type LogEntry struct {
 type Fault struct {
 	Verb, Resource, Name string
 	Nth                  int
+	Always               bool // every matching request fails (a persistent fault), not only the Nth
 	Code                 int
 	Reason               string
 	seen                 int
@@ -134,7 +135,9 @@ func meta(o map[string]interface{}) map[string]interface{} {
 	return m
 }
 func mstr(o map[string]interface{}, k string) string {
-	s, _ := meta(o)[k].(string)
+	// read-only: must not turn a null / missing metadata of a request body into {}
+	m, _ := o["metadata"].(map[string]interface{})
+	s, _ := m[k].(string)
 	return s
 }
 
@@ -482,7 +485,7 @@ func (s *Sim) serve(w http.ResponseWriter, r *http.Request) {
 		}
 		if (f.Verb == "" || f.Verb == verb) && (f.Resource == "" || f.Resource == pp.resource) && (f.Name == "" || f.Name == name) {
 			f.seen++
-			if f.seen == f.Nth {
+			if f.Always || f.seen == f.Nth {
 				code, reason = f.Code, f.Reason
 				e.Injected = true
 				break
